@@ -18,6 +18,7 @@ var checks = map[string]func(*ev.Ctx){
 	"C02": props.C02,
 	"C03": props.C03,
 	"C04": props.C04,
+	"C05": props.C05,
 	"C06": props.C06,
 	"C12": props.C12,
 }
